@@ -145,6 +145,9 @@ def check_text(case, stats):
         gh.parse(case["prev"], case.get("prev_default", "en"), parser=parser, stop=False)
         if len(text) % 3 == 0:
             parser = gh.Parser(b)  # the used (recording, delegating) builder handed to a brand-new parser
+        elif len(text) % 3 == 1:
+            b = RecordingAstBuilder()  # the used parser gets a brand-new builder
+            parser.ast_builder = b
     matcher = None
     if case.get("same_matcher_prevs"):
         # ONE matcher object for documents of several dialects (each names its own in a header), as a long-lived service keeps it
@@ -152,6 +155,15 @@ def check_text(case, stats):
         for pv in case["same_matcher_prevs"]:
             gh.parse(pv, dflt, matcher=matcher)
     real = gh.parse(text, dflt, parser=parser, stop=False, matcher=matcher)
+    if len(text) % 4 == 0 and matcher is None:
+        # the text is a snippet embedded at line 8 of some host file: the caller sets the scanner's public line counter; every line is still
+        # delivered once, only numbered from there
+        sc = gh.TokenScanner(text)
+        sc.line_number = 7
+        b2 = RecordingAstBuilder()
+        gh.parse(sc, dflt, builder=b2)
+        if [(k, l - 7) for k, l in b2.delivered] != list(b.delivered):
+            raise Violation(case, "with the scanner's line counter preset to 7 the builder receives %r ..., without %r ...\n%s" % (b2.delivered[:4], b.delivered[:4], text))
     n = len(split_lines(text))
     raw = split_lines(text)
     tagrun = any(raw[i].lstrip().startswith("@") and (raw[i + 1].strip() == "" or raw[i + 1].lstrip()[:1] in "#@") for i in range(len(raw) - 1))
@@ -183,9 +195,12 @@ def check_formatter_reuse(case, stats):
         p.parse(case["prev"], gh.TokenMatcher("en"))
     except gh.ParserError:
         pass
-    if case.get("new_parser"):
+    if case.get("new_parser") == 1:
         # the used builder object moves on to a brand-new Parser (one formatter kept, parsers made per document)
         p = gh.Parser(p.ast_builder)
+    elif case.get("new_parser") == 2:
+        # the used parser gets a brand-new builder (ast_builder is a public attribute)
+        p.ast_builder = gh.TokenFormatterBuilder()
     p.stop_at_first_error = False
     try:
         got = p.parse(case["text"], gh.TokenMatcher("en"))
@@ -229,7 +244,7 @@ def unit_prev_combos(a):
     sweep(stats, across(), check_text)
     prevs = ["Feature: f\n Scenario: s\n  Given x\n   \"\"\"\n   open\n", "Feature: f\n @t\n", "garbage\nFeature: f\n", "Feature: f\n" + "".join(" bad %d\n" % i for i in range(12)),
              "Feature: f\n Scenario: s\n  Given x\n   | a | b |\n   | c |\n @t\n\n Scenario: t\n", "Feature: ok\n"]
-    sweep(stats, [{"sub": "formatter-reuse", "prev": pv, "text": nx, "stop": st_, "new_parser": np_} for pv in prevs for nx in nexts for st_ in (False, True) for np_ in (False, True)], check_formatter_reuse)
+    sweep(stats, [{"sub": "formatter-reuse", "prev": pv, "text": nx, "stop": st_, "new_parser": np_} for pv in prevs for nx in nexts for st_ in (False, True) for np_ in (0, 1, 2)], check_formatter_reuse)
     return stats
 
 
